@@ -2,7 +2,10 @@
 
 package iterable
 
-import "fmt"
+import (
+	"fmt"
+	"reflect"
+)
 
 // VerifWalk walks the list from the head to the sentinel and checks its links. It returns the
 // number of nodes reachable (sentinel included), how many of them are marked deleted and the sum of
@@ -59,4 +62,19 @@ func (im *Map[K, V]) VerifWalk() (nodes, deleted, refSum int, err error) {
 		}
 		prev = p
 	}
+}
+
+// VerifStaleValues walks the list like VerifWalk and counts the linked nodes that are NOT live entries (removed
+// entries still pinned by an iterator, and the tail sentinel) but still hold a value different from the zero
+// value of V: values of removed entries that the map keeps reachable.
+func (im *Map[K, V]) VerifStaleValues() (stale int) {
+	limit := len(im.vals)*4 + 1_000_000
+	n := 0
+	for p := im.head; p != nil && n < limit; p = p.next {
+		n++
+		if p.state != rlOk && !reflect.ValueOf(&p.val).Elem().IsZero() {
+			stale++
+		}
+	}
+	return stale
 }
